@@ -73,12 +73,15 @@ class DeribitWorld:
         und = instruments[0]["underlying"] if instruments else 1650.0
         self.market.set_market_status(DeribitMarketStatus(timestamp=timestamp, data=df), price=pd.Series([price_index if price_index is not None else und], index=[self.tok.name], dtype=object))
 
-    def hold(self, name, amount, avg_buy=D("0.03")):
-        """direct-state holding (reachable by an earlier buy)"""
+    def hold(self, name, amount, avg_buy=D("0.03"), sold=None, avg_sell=D("0.025")):
+        """direct-state holding (reachable by an earlier buy; with `sold`, by an earlier buy of amount + sold and a sale of `sold`)"""
         from demeter.deribit import OptionPosition, OptionKind
 
         i = self.instruments[name]
-        self.market.positions[name] = OptionPosition(name, i.get("expiry", EXPIRY), i["strike"], OptionKind(i["type"]), amount, avg_buy, amount, D(0), D(0))
+        if sold is None:
+            self.market.positions[name] = OptionPosition(name, i.get("expiry", EXPIRY), i["strike"], OptionKind(i["type"]), amount, avg_buy, amount, D(0), D(0))
+        else:
+            self.market.positions[name] = OptionPosition(name, i.get("expiry", EXPIRY), i["strike"], OptionKind(i["type"]), amount, avg_buy, amount + sold, avg_sell, sold)
 
     def book(self, name, side):
         lst = self.market.market_status.data.loc[name][side]
@@ -111,9 +114,8 @@ def states_equal(ctx, a, b, prefix):
     return ctx.check_all(items)
 
 
-def sym_book(ctx, name, n_asks, n_bids, mark=0.0287, sym_prices=False, prefix=""):
+def sym_book(ctx, name, n_asks, n_bids, mark=0.0287, sym_prices=False, prefix="", step=0.0005):
     """order book with symbolic integer sizes (as floats, like the data) and ascending asks / descending bids around mark"""
-    step = 0.0005
     asks, bids = [], []
     for k in range(n_asks):
         size = _flt(ctx, ctx.int_(f"{prefix}ask{k}_size", 0, 2000))
